@@ -403,7 +403,11 @@ func checkC13(c *Ctx) {
 					if bo, ok := ph.Edges[k].(*ssa.BinOp); ok && bo.Op == token.ADD && bo.X == ssa.Value(ph) {
 						if s, isC := constInt(bo.Y); isC {
 							ind, step = ph, s
-							initV = ph.Edges[1-k]
+							for k2, pred2 := range h.Preds {
+								if !h.Dominates(pred2) {
+									initV = ph.Edges[k2]
+								}
+							}
 						}
 					}
 				}
